@@ -42,3 +42,8 @@ func init() {
 func init() {
 	register("C12", Rule{Name: "E8", Run: runE8}, Rule{Name: "E1.rows", Run: runRows("C12")})
 }
+
+func init() {
+	register("C11", Rule{Name: "E1.rows", Run: runRows("C11")}, Rule{Name: "E6.crossfile", Run: runCrossFile})
+	register("C08", Rule{Name: "E1.rows", Run: runRows("C08")}, Rule{Name: "E6.crossfile", Run: runCrossFile}, Rule{Name: "E1.whomaycall", Run: runWhoMayCall}, Rule{Name: "E7.dispatch", Run: runDispatch})
+}
